@@ -115,6 +115,8 @@ func Const(x any) ast.Constant {
 	case "bign":
 		n, _ := strconv.ParseInt(t[1].(string), 10, 64)
 		return ast.Number(n)
+	case "w":
+		return ast.Number(RingToInt64(Int(t[1]), Int(t[2])))
 	case "s":
 		return ast.String(t[1].(string))
 	case "c":
@@ -182,6 +184,31 @@ func ASTAtom(a Atom) ast.Atom {
 		args[i] = Term(e)
 	}
 	return ast.Atom{Predicate: ast.PredicateSym{Symbol: a.P, Arity: len(args)}, Args: args}
+}
+
+// RingToInt64 reads the symbolic int64 of spec/Ring64.tla: a*2^63 + b (mod 2^64), a in {0,1}, b small.
+func RingToInt64(a, b int64) int64 {
+	if a == 0 {
+		return b
+	}
+	if b >= 0 {
+		return math.MinInt64 + b
+	}
+	return math.MaxInt64 + (b + 1) // = MaxInt64 - (-b - 1)
+}
+
+// RingOf is the inverse on the representable zones; other numbers are ["mid", text].
+func RingOf(n int64) any {
+	const k = 1 << 20
+	switch {
+	case n >= -k && n <= k:
+		return []any{"w", 0, n}
+	case n >= math.MaxInt64-k:
+		return []any{"w", 1, (n - math.MaxInt64) - 1}
+	case n <= math.MinInt64+k:
+		return []any{"w", 1, n - math.MinInt64}
+	}
+	return []any{"mid", strconv.FormatInt(n, 10)}
 }
 
 // ---------------------------------------------------------------- ast -> JSON
